@@ -16,8 +16,8 @@ META = {
     "harness_bins": ["nkeval"],
     "extract": "C16.v",
     "technique": "Coq proofs about an executable model of Number arithmetic on canonical rationals, about the std.number.* bodies translated from std.ncl at check time, and about == on data (explicit-stack algorithm of operation.rs = structural recursion = equality of canonical exported trees); model tied to the interpreter by an exhaustive literal/operator grid and random differential runs compared as exact p/q, with law-expressions and an independent Fraction reference as direct oracles",
-    "level_text": "60 theorems (coq/Props/C16.v), all for unbounded inputs: + - * are commutative/associative/distributive with units on the canonical (lowest-terms) results the model computes and do not depend on the representative of the operands; / and % raise the division-by-zero error exactly when the divisor is zero, q*b = a for q = a/b; a = trunc(a/b)*b + a%b with |a%b| < |b| and the sign of the dividend; < <= > >= == form a total order compatible with + and with * by positives; pow on an i64 exponent is the exact rational power (pow_add, pow_mul, pow_neg, pow_succ, the zero-base/negative-exponent error explicit), any other exponent is marked unspecified (f64 path); number literals denote digits.fraction * 10^exponent exactly (leading/trailing zeros and point/exponent shifts irrelevant). The bodies of std.number.{floor,truncate,fract,abs,min,max,is_integer,compare,pow} are re-translated from /repo/core/stdlib/std.ncl on every run (fail closed) and floor x = Qfloor x, truncate = rounding towards zero, x = truncate x + fract x with |fract x| < 1, abs, min/max (lattice laws), is_integer, compare are proved about the translated bodies. On data values (null, bool, number, string, enum tag, enum variant, array, record with distinct keys): == is reflexive, symmetric, transitive, independent of field order and of the representative of numbers, holds exactly when the canonical exported trees are equal, agrees with equality of the serialized form on enum-free data (refuted with a witness when enum tags are present: 'a vs \"a\"), and the explicit stack-of-sub-equalities algorithm of operation.rs (its evaluation order included) computes the structural recursion. The models are tied to the interpreter built from /repo by differential runs: every p/q with |p|<=12, q<=6 in every literal spelling x every operator and std.number function (thorough: all pairs), 200-digit random values, random nested expressions, random and exhaustive-small-universe triples of data values with and without pending contracts; every result is compared with the extracted model and with an independent exact reference, and the equality laws are also checked directly on the interpreter's own answers.",
-    "level_note": "Trusted: Coq kernel; extraction (ExtrOcamlBasic + ExtrOcamlNativeString, no Extract Constant); ocaml/c16/driver.ml and harness/src/eval.rs (parsing/printing); the translator's tokenizer/parser for the std.ncl fragment (a mis-translation shows up as a model-vs-interpreter disagreement on the grid); python generators and Fraction reference in checks/c16.py. Modelled, not verified: operation.rs number operators and eq(), malachite (Rational arithmetic, from_sci_string, rounding_from Down) -- tied by correspondence only. Outside the theorems: results through f64 (pow with non-i64 exponent, sqrt, log, trigonometry: checked not to crash only); == on records with empty optional fields, not_exported fields, pending contracts, functions/labels (pending validating contracts and optional fields are exercised by direct oracles on the interpreter, not by a theorem); the lexer regex itself (literal spellings are generated from it by hand).",
+    "level_text": "63 theorems (coq/Props/C16.v), all for unbounded inputs: + - * are commutative/associative/distributive with units on the canonical (lowest-terms) results the model computes and do not depend on the representative of the operands; / and % raise the division-by-zero error exactly when the divisor is zero, q*b = a for q = a/b; a = trunc(a/b)*b + a%b with |a%b| < |b| and the sign of the dividend; < <= > >= == form a total order compatible with + and with * by positives; pow on an i64 exponent is the exact rational power (pow_add, pow_mul, pow_neg, pow_succ, the zero-base/negative-exponent error explicit), any other exponent is marked unspecified (f64 path); number literals denote digits.fraction * 10^exponent exactly (leading/trailing zeros and point/exponent shifts irrelevant). The bodies of std.number.{floor,truncate,fract,abs,min,max,is_integer,compare,pow} are re-translated from /repo/core/stdlib/std.ncl on every run (fail closed) and floor x = Qfloor x, truncate = rounding towards zero, x = truncate x + fract x with |fract x| < 1, abs, min/max (lattice laws), is_integer, compare are proved about the translated bodies. On data values (null, bool, number, string, enum tag, enum variant, array, record with distinct keys): == is reflexive, symmetric, transitive, independent of field order and of the representative of numbers, holds exactly when the canonical exported trees are equal, agrees with equality of the serialized form on enum-free data (refuted with a witness when enum tags are present: 'a vs \"a\"), and the explicit stack-of-sub-equalities algorithm of operation.rs (its evaluation order included) computes the structural recursion. An extended model (EqX.v) adds what the evaluator sees beyond data: record fields with optional/undefined definitions and pending contracts, arrays with pending contracts, lazily erroring elements; it mirrors eq() after fix 8cabe79 including its error cases and scheduling order, and xeq_norm proves that on every pair of values that stand for data (validating contracts, empty optional fields) it raises no error and answers == of the underlying data (so pending contracts, empty optional fields and evaluation order are irrelevant there); plain data embeds (xeq_embed). The models are tied to the interpreter built from /repo by differential runs: every p/q with |p|<=12, q<=6 in every literal spelling x every operator and std.number function (thorough: all pairs), 200-digit random values, random nested expressions, random and exhaustive-small-universe triples of data values with and without pending contracts; every result is compared with the extracted model and with an independent exact reference, and the equality laws are also checked directly on the interpreter's own answers.",
+    "level_note": "Trusted: Coq kernel; extraction (ExtrOcamlBasic + ExtrOcamlNativeString, no Extract Constant); ocaml/c16/driver.ml and harness/src/eval.rs (parsing/printing); the translator's tokenizer/parser for the std.ncl fragment (a mis-translation shows up as a model-vs-interpreter disagreement on the grid); python generators and Fraction reference in checks/c16.py. Modelled, not verified: operation.rs number operators and eq(), malachite (Rational arithmetic, from_sci_string, rounding_from Down) -- tied by correspondence only. Outside the theorems: results through f64 (pow with non-i64 exponent, sqrt, log, trigonometry: checked not to crash only); == on functions/labels/sealing keys/foreign values; contracts that change the value (defaults, custom contracts) -- only validating built-in contracts are modelled; not_exported is ignored by == (pinned: {a = 1, b | not_exported = 2} == {a = 1} is false although both export alike), so agreement with the exported form is claimed for data without hidden fields; error cases of the extended model (MissingFieldDef, blame, erroring elements) are tied by correspondence only; the lexer regex itself (literal spellings are generated from it by hand).",
 }
 
 STD_NCL = os.path.join(core.REPO, "core", "stdlib", "std.ncl")
@@ -1514,6 +1514,11 @@ PINNED = [
     ("'Foo 1 == 'Foo 1", "OK true", "eq-variant", ""), ("'Foo 1 == 'Foo 2", "OK false", "eq-variant", ""),
     ("'Foo 1 == 'Foo", "OK false", "eq-variant", ""), ("'Foo 1 == 'Bar 1", "OK false", "eq-variant", ""),
     ("1 == \"1\"", "OK false", "eq-num-string", ""), ("1 == true", "OK false", "eq-num-bool", ""), ("null == {}", "OK false", "eq-null", ""),
+    ("{a = 1, b | not_exported = 2} == {a = 1}", "OK false", "eq-not-exported", "== does not look at not_exported: finer than the exported form (documented, outside data)"),
+    ("{a = 1, b | not_exported = 2} == {a = 1, b = 2}", "OK true", "eq-not-exported", ""),
+    ("{a} == {a = 1}", "ERR MissingDef", "eq-required-undefined", "a required field without definition is an error, not data"),
+    ("[1/0, 1] == [1, 2]", "OK false", "eq-order", "arrays are compared from the last element: the error is never forced"),
+    ("[1, 1/0] == [2, 2]", "ERR DivByZero", "eq-order", ""),
     ("[] == {}", "OK false", "eq-empty", ""), ("[] == []", "OK true", "eq-empty", ""), ("{} == {}", "OK true", "eq-empty", ""),
     ("[[]] == [[]]", "OK true", "eq-empty", ""), ("[1] == [1, 2]", "OK false", "eq-length", ""), ("[] == [1]", "OK false", "eq-length", ""),
     ("0.1 + 0.2 == 0.3", "OK true", "num:OAdd", "no floating-point drift"),
